@@ -247,6 +247,33 @@ def r14_4(ctx):
     t = src(cg.node).replace(' ', '')
     ok = 'itertools.product(*G2.sdim*[(False,True)])' in t
     ctx.decide('R14.4', cg.qual, 'all 2^d flips are tried', ok or None, cg.node)
+    # each candidate flip is applied to the UNFLIPPED sample grid: the list that is flipped in place must be created
+    # inside the loop over the candidates (a list created once before the loop accumulates the flips of earlier
+    # candidates, so the grid no longer corresponds to the flip that is reported)
+    fl = [l for l in own_nodes(cg.node) if isinstance(l, ast.For) and 'flip' in src(l.target)]
+    outer = [l for l in fl if guards.in_loop(l, cg.node) is None]
+    if not outer:
+        ctx.undecided('R14.4', cg.qual, 'each candidate flip starts from the unflipped grid', cg.node, 'loop over the flips not recognised')
+    else:
+        lp = outer[0]
+        stores = [s for s in ast.walk(lp) if isinstance(s, ast.Assign) and isinstance(s.targets[0], ast.Subscript) and isinstance(s.targets[0].value, ast.Name)
+                  and s.targets[0].value.id in {n.id for n in ast.walk(s.value) if isinstance(n, ast.Name)}]
+        if not stores:
+            ctx.met('R14.4', cg.qual, 'each candidate flip starts from the unflipped grid', lp, 'no in-place update of a grid list', nontrivial=False)
+        for st in stores[:1]:
+            name = st.targets[0].value.id
+            fresh = [s for s in lp.body if isinstance(s, ast.Assign) and any(isinstance(t, ast.Name) and t.id == name for t in s.targets)]
+            before = [s for s in own_nodes(cg.node) if isinstance(s, ast.Assign) and any(isinstance(t, ast.Name) and t.id == name for t in s.targets)
+                      and s.lineno < lp.lineno]
+            if fresh and fresh[0].lineno < st.lineno:
+                ctx.met('R14.4', cg.qual, 'each candidate flip starts from the unflipped grid', fresh[0], '`%s` inside the loop' % src(fresh[0]))
+            elif before:
+                ctx.violated('R14.4', cg.qual, 'each candidate flip starts from the unflipped grid', st,
+                             '`%s` is created once before the loop (`%s`) and flipped in place inside it: the flips of earlier candidates accumulate, so '
+                             'from the third candidate on the grid differs from the flip that is tested and reported (3D patches: wrong or missed '
+                             'interfaces)' % (name, src(before[-1])))
+            else:
+                ctx.undecided('R14.4', cg.qual, 'each candidate flip starts from the unflipped grid', st, 'origin of %s not recognised' % name)
 
 
 def run(ctx):
